@@ -1,4 +1,5 @@
 import RulioProofs.EventsExamples
+import RulioModel.Subst
 
 /-! # C04 — an event runs each action exactly once per rule, `when` binding and condition binding
 (property theorems only)
@@ -326,3 +327,124 @@ example : processEvent exSrch "loc" exEv exCands = processEvent exSrch "loc" exE
     (nonmatching_not_run exSrch "loc" exEv [("r1", exR, true)] [] "r2" exRz true ex_when_z)
 
 end Examples
+
+/-! ## 5. actions with an HTTP endpoint: what is POSTed (`SubstituteBindings`, actions.go)
+
+An action whose endpoint is an `http(s):` URL POSTs `{"bindings": bs, "opts": opts, "code": C}` once per execution
+(the counting theorems above are about executions, whatever the endpoint). With `subvars` (the default of a rule's action)
+`C = substD d bs code`: `RulioModel/Subst.lean`, the model of `substituteInterface` on the fragment `substFrag` (every
+string of the template is a naked variable `?name` or has no `?`, no map key has a `?`); `d` is the control's
+`DefaultVariableValue` when `UseDefaultVariableValue` is set (`DefaultControl()`: `some "undefined"`), `substJ = substD none`.
+`VarKeys bs`: every binding key contains a `?` (keys are variables). The correspondence run of `checks/c04.py` compares
+the bodies a recording server receives with these definitions. -/
+
+open SubstLemmas
+
+/-- `subst_ground`: a template without any `?` (in strings and keys) is sent as it is, whatever the bindings -/
+theorem subst_ground (d : Option J) (bs : Bs) (hk : VarKeys bs) (t : J) (h : qfree t = true) :
+    substD d bs t = .ok t :=
+  ground_J d hk t h
+
+/-- `subst_exact`: a template that is exactly one bound variable yields the bound value itself, of whatever JSON type
+(a number stays a number, a map stays a map) — also when the variable is an element of an array or a value of a map -/
+theorem subst_exact (d : Option J) (bs : Bs) (x : String) (v : J) (h : bs.get? x = some v) :
+    substD d bs (.str x) = .ok v ∧
+    substD d bs (.arr [.str x]) = .ok (.arr [v]) ∧
+    ∀ k, hasQ k = false → substD d bs (.obj [(k, .str x)]) = .ok (.obj [(k, v)]) := by
+  have hs : substStr d bs x = .ok v := by simp [substStr, h]
+  refine ⟨by simp [substD, hs], ?_, ?_⟩
+  · simp [substD, substDL, hs]
+  · intro k hq; simp [substD, substDO, hq, hs]
+
+/-- `subst_unbound_errors`: without `UseDefaultVariableValue`, a naked variable that nothing binds — anywhere in the
+template (array element or map value, at any depth) — makes the substitution fail: the action fails and nothing is sent.
+At the top it is the error `naked variable '?x' unbound`. -/
+theorem subst_unbound_errors (bs : Bs) (x : String) (hn : isNaked x = true) (hu : bs.get? x = none) :
+    substJ bs (.str x) = .error ("naked variable '" ++ x ++ "' unbound") ∧
+    ∀ t : J, x ∈ strLeaves t → ∃ e, substJ bs t = .error e :=
+  ⟨by simpa [substJ, substD] using substStr_unbound hn hu, fun t h => err_J hn hu t h⟩
+
+/-- `subst_unbound_default`: with `UseDefaultVariableValue` an unbound naked variable is replaced by the default value
+(`"undefined"` under `DefaultControl()`), and on the fragment the substitution cannot fail at all -/
+theorem subst_unbound_default (v : J) (bs : Bs) :
+    (∀ x, isNaked x = true → bs.get? x = none → substD (some v) bs (.str x) = .ok v) ∧
+    ∀ t : J, substFrag t = true → ∃ r, substD (some v) bs t = .ok r :=
+  ⟨fun x hn hu => by simp [substD, substStr, hu, hn], fun t hf => ok_J t hf (fun _ _ _ _ => rfl)⟩
+
+/-- `subst_succeeds_iff_bound` (fragment, no default value): the substitution succeeds exactly when every naked variable
+of the template is bound -/
+theorem subst_succeeds_iff_bound (bs : Bs) (t : J) (hf : substFrag t = true) :
+    (∃ r, substJ bs t = .ok r) ↔ ∀ x ∈ strLeaves t, isNaked x = true → (bs.get? x).isSome = true := by
+  constructor
+  · rintro ⟨r, hr⟩ x hx hn
+    cases hg : bs.get? x with
+    | some _ => rfl
+    | none =>
+      obtain ⟨e, he⟩ := err_J hn hg t hx
+      rw [substJ] at hr; rw [hr] at he; cases he
+  · intro h
+    exact ok_J t hf (fun x hx hn hg => by have := h x hx hn; rw [hg] at this; cases this)
+
+/-- `subst_compositional`: substitution distributes over arrays, and over maps whose keys have no `?` (keys unchanged,
+order kept); scalars other than strings are untouched -/
+theorem subst_compositional (d : Option J) (bs : Bs) :
+    (∀ xs : List J, substD d bs (.arr xs) = (xs.mapM (substD d bs)).map J.arr) ∧
+    (∀ kvs : List (String × J), (∀ kv ∈ kvs, hasQ kv.1 = false) →
+      substD d bs (.obj kvs) = (kvs.mapM (fun kv => (substD d bs kv.2).map (fun v => (kv.1, v)))).map J.obj) ∧
+    substD d bs .null = .ok .null ∧ (∀ b, substD d bs (.bool b) = .ok (.bool b)) ∧ (∀ n, substD d bs (.num n) = .ok (.num n)) := by
+  refine ⟨fun xs => ?_, fun kvs h => ?_, rfl, fun _ => rfl, fun _ => rfl⟩
+  · rw [← substDL_eq_mapM]; simp only [substD]; cases substDL d bs xs <;> rfl
+  · rw [← substDO_eq_mapM d bs kvs h]; simp only [substD]; cases substDO d bs kvs <;> rfl
+
+/-- `subst_result_ground`: when the bound values (and the default value) contain no `?`, whatever is sent contains no `?`
+either: no unresolved variable reaches the endpoint -/
+theorem subst_result_ground (d : Option J) (bs : Bs) (hv : QfreeVals bs) (hd : ∀ v, d = some v → qfree v = true)
+    (t r : J) (h : substD d bs t = .ok r) : qfree r = true :=
+  result_J hv hd t r h
+
+/-- `subst_idempotent_on_ground_bindings`: if all bound values (and the default value) are free of `?`, substituting
+the result again changes nothing -/
+theorem subst_idempotent_on_ground_bindings (d : Option J) (bs : Bs) (hk : VarKeys bs) (hv : QfreeVals bs)
+    (hd : ∀ v, d = some v → qfree v = true) (t r : J) (h : substD d bs t = .ok r) :
+    substD d bs r = .ok r :=
+  ground_J d hk r (result_J hv hd t r h)
+
+/-- `subst_depends_on_own_variables`: the result depends only on what the bindings give to the strings of the template
+— extra bindings (`?event`, `?location`, `?ruleId`, variables of other rules) and the order of the bindings do not matter -/
+theorem subst_depends_on_own_variables (d : Option J) (bs bs' : Bs) (t : J)
+    (h : ∀ x ∈ strLeaves t, bs.get? x = bs'.get? x) : substD d bs t = substD d bs' t :=
+  agree_J d bs bs' t h
+
+namespace PostExamples
+
+/-- bindings of an action execution: `when` bound `?w`, the condition `?l` and `?n`; the event and names are added -/
+def exBs : Bs := [("?n", .num 3), ("?l", .str "tacos"), ("?w", .str "homer"),
+  ("?event", .obj [("who", .str "homer")]), ("?location", .str "a"), ("?ruleId", .str "r1")]
+
+def exTmpl : J := .obj [("a", .str "?w"), ("b", .arr [.str "?l", .num 1, .str "const", .obj [("c", .str "?n")]]), ("e", .str "?event")]
+
+/-- the hypotheses of the theorems hold for the instance -/
+example : VarKeys exBs ∧ QfreeVals exBs ∧ substFrag exTmpl = true := by
+  refine ⟨?_, ?_, by decide⟩
+  · intro kv h; simp only [exBs, List.mem_cons, List.not_mem_nil, or_false] at h
+    rcases h with h | h | h | h | h | h <;> subst h <;> decide
+  · intro kv h; simp only [exBs, List.mem_cons, List.not_mem_nil, or_false] at h
+    rcases h with h | h | h | h | h | h <;> subst h <;> decide
+
+/-- what is sent as `code`: values keep their JSON type, constants stay -/
+example : substJ exBs exTmpl = .ok (.obj [("a", .str "homer"),
+    ("b", .arr [.str "tacos", .num 1, .str "const", .obj [("c", .num 3)]]), ("e", .obj [("who", .str "homer")])]) := by rfl
+
+/-- an unbound variable: an error without a default value, `"undefined"` with `DefaultControl()`'s -/
+example : substJ exBs (.arr [.str "?w", .str "?zz"]) = .error "naked variable '?zz' unbound" ∧
+    substD (some (.str "undefined")) exBs (.arr [.str "?w", .str "?zz"]) = .ok (.arr [.str "homer", .str "undefined"]) := ⟨by rfl, by rfl⟩
+
+/-- outside the fragment: a string that mixes text and a variable is not modelled -/
+example : substFrag (.str "id-?w") = false ∧ isNaked "?w" = true ∧ isNaked "?9" = false ∧ isNaked "??w" = false := by decide
+
+/-- `subst_idempotent_on_ground_bindings` needs the hypothesis on the values: a value that is itself a variable name is
+substituted again by a second pass -/
+example : substJ [("?a", .str "?b"), ("?b", .num 1)] (.str "?a") = .ok (.str "?b") ∧
+    substJ [("?a", .str "?b"), ("?b", .num 1)] (.str "?b") = .ok (.num 1) := ⟨by rfl, by rfl⟩
+
+end PostExamples
